@@ -219,7 +219,13 @@ impl Run {
                     }
                     p.published += 1;
                     let n = p.published;
-                    let body = format!("{}:{}:{:016x}", st.id, n, salt.wrapping_mul(n + 7919 * st.id));
+                    let mut body = format!("{}:{}:{:016x}", st.id, n, salt.wrapping_mul(n + 7919 * st.id)).into_bytes();
+                    // "big:<d>": a message d bytes short of the largest one a frame can carry -- what a publisher's
+                    // frame may hold, a subscriber's frame must be able to hold
+                    if let Some(d) = st.which.strip_prefix("big:").and_then(|d| d.parse::<usize>().ok()) {
+                        body.push(b':');
+                        body.resize(max_message_len().saturating_sub(d), b'x');
+                    }
                     let f = Frame::Message(MessagePayload { headers: None, message: Bytes::from(body) });
                     self.registry.lock().unwrap().insert((st.id, n), f.clone());
                     p.h.st().queue.push_back(f);
@@ -332,6 +338,23 @@ impl Run {
     }
 }
 
+/// the longest message a `Frame::Message` without headers can carry within the frame limit (found with the codec)
+fn max_message_len() -> usize {
+    use selium_protocol::MessageCodec;
+    use tokio_util::codec::Encoder;
+    static MAX: std::sync::OnceLock<usize> = std::sync::OnceLock::new();
+    *MAX.get_or_init(|| {
+        let mut l = 1024 * 1024usize;
+        loop {
+            let f = Frame::Message(MessagePayload { headers: None, message: Bytes::from(vec![b'x'; l]) });
+            if MessageCodec.encode(f, &mut bytes::BytesMut::new()).is_ok() {
+                return l;
+            }
+            l -= 1;
+        }
+    })
+}
+
 fn random_schedule(rng: &mut StdRng, k: u64, max_pubs: u64, max_subs: u64, max_items: u64, len: usize) -> Schedule {
     let mut steps = vec![];
     let mut pubs: Vec<(u64, u64, bool)> = vec![]; // id, published, ended
@@ -342,6 +365,7 @@ fn random_schedule(rng: &mut StdRng, k: u64, max_pubs: u64, max_subs: u64, max_i
     // one schedule in 50 contains a burst: a few hundred items ready at once for one poll (work done per
     // poll must stay bounded by the data available, and nothing may be left behind without a wake-up)
     let burst_at = if k % 50 == 7 { Some(rng.gen_range(2..len.max(3))) } else { None };
+    let mut big_done = false;
     for stepno in 0..len {
         if Some(stepno) == burst_at {
             if pubs.is_empty() && !closed {
@@ -379,7 +403,13 @@ fn random_schedule(rng: &mut StdRng, k: u64, max_pubs: u64, max_subs: u64, max_i
                 continue;
             }
             pubs[i].1 += 1;
-            Step { op: "publish".into(), id: pubs[i].0, which: String::new() }
+            let which = if k % 25 == 3 && !big_done {
+                big_done = true;
+                format!("big:{}", [0usize, 1, 7, 8, 9, 64][rng.gen_range(0..6)])
+            } else {
+                String::new()
+            };
+            Step { op: "publish".into(), id: pubs[i].0, which }
         } else if r < 70 && !pubs.is_empty() {
             let i = rng.gen_range(0..pubs.len());
             if pubs[i].2 {
@@ -439,6 +469,7 @@ fn marathon_schedule(rng: &mut StdRng) -> Schedule {
                 steps.push(s("poll", 0, ""));
             }
         }
+        steps.push(s("publish", 1, if g % 2 == 0 { "big:0" } else { "big:8" }));
         steps.push(s("poll", 0, ""));
         if g % 2 == 0 {
             steps.push(s("break", g, ["ready", "send", "flush"][(g as usize / 2) % 3]));
